@@ -107,7 +107,7 @@ def run(prefixes, allchecks):
         if not os.path.exists(patch): continue
         tests = suite_ok(patch)
         props = allprops if (allchecks or name.startswith('B-')) else exp[name]
-        r = subprocess.run([os.path.join(V, 'tools', 'mutant.py'), patch] + props, stdout=subprocess.PIPE, stderr=subprocess.STDOUT, text=True)
+        r = subprocess.run([os.path.join(V, 'tools', 'mutant.py'), '--persist', patch] + props, stdout=subprocess.PIPE, stderr=subprocess.STDOUT, text=True)
         out = [l.strip() for l in r.stdout.splitlines() if l.startswith('C') or 'VIOLATION' in l]
         verdicts = {l.split()[0]: l.split()[1] for l in out if l[0] == 'C' and len(l.split()) > 1}
         print(name, 'suite_passes=%s' % tests, verdicts, flush=True)
